@@ -35,7 +35,7 @@ def gen_case(rng, maxops=10):
     for _ in range(rng.randint(1, maxops)):
         r = rng.random()
         if r < 0.58:
-            ops.append(H.gen_fill(rng, edges, nan_ok=rng.random() < 0.25))
+            ops.append(H.gen_fill(rng, edges, nan_ok=rng.random() < 0.12))
         elif r < 0.78:
             ops.append(H.gen_scale(rng, nb))
         elif r < 0.86:
@@ -204,14 +204,14 @@ def oracle(case):
 def classify(msg):
     if msg is None:
         return None
-    if "make_density" in msg and "integral" in msg:
+    if ("make_density" in msg and "integral" in msg) or "(density)" in msg:
         return "C09-density-normalises-sum"
     return None
 
 
 # ----------------------------------------------------------------------------- correspondence
 def correspondence(ctx, model_ok=True):
-    n = 400 if ctx.quick else 6000
+    n = 400 if ctx.quick else 12000
     cases = []
     corpus = os.path.join(C.VERIF, "corpus", ID)
     if os.path.isdir(corpus):
